@@ -566,6 +566,34 @@ theorem manifest_exact (m : Module) (es ms : List Name)
     n ∈ manifest es ms ↔ [n] ∈ m.types := by
   simp [manifest, htop]
 
+/-! ## Module header: type identity in sub-packages -/
+
+/-- the types of a module are registered in the proto package of THEIR file, whatever the API's package is
+    (a file of a sub-package keeps its own package; it is not folded into the API's root package) -/
+theorem module_header_package (apiPkg filePkg : List Name) : (moduleHeader apiPkg filePkg).package = filePkg := rfl
+
+/-- every types module of a library, root package or sub-package, uses one marshal: the API package's -/
+theorem module_marshal_shared (apiPkg filePkg : List Name) : (moduleHeader apiPkg filePkg).marshalName = apiPkg := by
+  by_cases h : apiPkg = filePkg <;> simp [moduleHeader, ModuleHeader.marshalName, h]
+
+/-- `marshal=` is printed exactly for files of a package other than the API's -/
+theorem module_marshal_printed_iff (apiPkg filePkg : List Name) :
+    (moduleHeader apiPkg filePkg).marshal.isSome ↔ apiPkg ≠ filePkg := by
+  by_cases h : apiPkg = filePkg <;> simp [moduleHeader, h]
+
+/-- type identity: a quoted reference printed in a module whose header is `moduleHeader apiPkg filePkg` is read by
+    proto-plus as `<file package>.<path>` — the full name the input descriptor gives the type (`Addr.full`) -/
+theorem module_types_full_name (apiPkg filePkg : List Name) (m : Module)
+    (hm : m.package = (moduleHeader apiPkg filePkg).package) (a : Addr) (ha : a.package = filePkg)
+    (hin : a.parent ++ [a.name] ∈ m.types) :
+    plusResolve m (a.parent ++ [a.name]) = .type a.full := by
+  simp [plusResolve, hin, hm, moduleHeader, Addr.full, ha]
+
+example : moduleHeader ["acme".toList, "v1".toList] ["acme".toList, "v1".toList, "catalog".toList] =
+    ⟨["acme".toList, "v1".toList, "catalog".toList], some ["acme".toList, "v1".toList]⟩ ∧
+    moduleHeader ["acme".toList, "v1".toList] ["acme".toList, "v1".toList] = ⟨["acme".toList, "v1".toList], none⟩ := by
+  decide
+
 /-! ## References under Python scoping -/
 
 /-- every non-empty proper prefix of an emitted class path is an emitted class -/
